@@ -20,6 +20,8 @@ open GridVerif.Proto GridVerif.NGrid
 
   The same operations on the generated programs (Gen/NGrid.lean), run as they are:
   C18.gen-new / gen-struct / gen-nonvec / gen-vec / gen-vecbad / gen-chunks   (same arguments, same answers)
+  C18.gen-moments orders type_mom|default 0|1|default gridspec <mat centres> <fvec values>  -> not-implemented
+  C18.gen-localgrid gridspec <fvec centre> <fvec radius>                                    -> not-implemented
 -/
 
 def parseGrids : Nat → List String → Option (List (Grid Nat Float) × List String)
@@ -50,6 +52,7 @@ def showRes : Except Err Float → String
   | .error .valueError => "value-error"
   | .error .typeError => "type-error"
   | .error .indexError => "index-error"
+  | .error .notImplementedError => "not-implemented"
   | .error .nonTermination => "non-termination"
 
 /-- the generated constructor on a grid specification -/
@@ -69,6 +72,7 @@ def showResE : Except Err String → String
   | .error .valueError => "value-error"
   | .error .typeError => "type-error"
   | .error .indexError => "index-error"
+  | .error .notImplementedError => "not-implemented"
   | .error .nonTermination => "non-termination"
 
 def genIntegrand (g : Gen.NGrid.MultiDomainGrid Nat Float) (table : List Float) (bad : Bool) : Integrand Nat Float :=
@@ -121,6 +125,36 @@ def handleGen : List String → Option String
       let g ← r
       let v ← g.integrate (genIntegrand g table true) false 6000
       pure ("ok " ++ sFloat v))
+  | "C18.gen-moments" :: orders :: tm :: ro :: spec => do
+    -- orders, type_mom (a word, or `default` = argument omitted), return_orders (0 / 1 / `default`),
+    -- grid specification, centres (matrix), function values (vector)
+    let orders ← pInt orders
+    let (r, rest) ← parseSpecGen spec
+    let (centers, rest) ← pMat pFloat rest
+    let (vals, rest) ← pVec pFloat rest
+    if rest ≠ [] then none else
+    let ro ← match ro with
+      | "0" => some (some false)
+      | "1" => some (some true)
+      | "default" => some none
+      | _ => none
+    pure (showResE do
+      let g ← r
+      let _m : List (List Float) ← match tm, ro with
+        | "default", none => g.moments orders centers vals
+        | "default", some b => g.moments orders centers vals (return_orders := b)
+        | t, none => g.moments orders centers vals t
+        | t, some b => g.moments orders centers vals t b
+      pure "ok")
+  | "C18.gen-localgrid" :: spec => do
+    let (r, rest) ← parseSpecGen spec
+    let (center, rest) ← pVec pFloat rest
+    let (radius, rest) ← pVec pFloat rest
+    if rest ≠ [] then none else
+    pure (showResE do
+      let g ← r
+      let _l : Gen.NGrid.MultiDomainGrid Nat Float ← g.get_localgrid center radius
+      pure "ok")
   | ["C18.gen-chunks", c, n] => do
     let c ← pNat c
     let n ← pNat n
